@@ -239,13 +239,13 @@ class Bus (objects.DBusObject):
             elif mt == 4:
                 self.signalReceived(p, msg)
 
-            if (
-                    msg.destination
-                    and not msg.destination == 'org.freedesktop.DBus'
-            ):
-                self.sendMessage(msg)
-
-            self.router.routeMessage(msg)
+            if msg.destination:
+                # unicast: to the owner of the destination only
+                if not msg.destination == 'org.freedesktop.DBus':
+                    self.sendMessage(msg)
+            else:
+                # broadcast: to the connections holding a matching rule
+                self.router.routeMessage(msg)
         except DError as e:
             sig = None
             body = None
